@@ -3,7 +3,7 @@ C16 - results do not depend on solver back-end, acceleration options or repetiti
 
 wrapper : one ``Solver`` instance per back-end (klu, umfpack, spsolve); every sequence of <= 3 (4) operations from
           {solve(A_k), linsolve(A_k), linsolve(A_0, multi-column rhs), set worker.factorize, set worker.new_A, clear}
-          with A_k in {regular, same pattern new values, other pattern, other size, singular}; every call the
+          with A_k in {regular, same pattern new values, other pattern, other pattern with the same shape and number of entries, other size, singular}; every call the
           property names must return x with A x = b (dense numpy check); singular input must not yield a finite x.
 routine : small systems x {klu, umfpack, spsolve} x linsolve x ipadd x power-flow method: power-flow solution,
           trajectory at stored instants and eigenvalues equal the default configuration to solver precision.
@@ -28,15 +28,17 @@ def mats():
     S[1] = 2 * S[0]
     S[1, 2] = 0.0
     S = np.array([[4.0, 1.0, 0.0], [1.0, 5.0, 2.0], [2.0, 10.0, 4.0]])           # row3 = 2*row2: singular, A0 pattern+
-    return dict(A0=A0, A1=A1, A2=A2, A3=A3, S=S)
+    # other pattern with the shape AND the number of stored entries of A0 (a cache keyed on shape + nnz cannot tell them apart)
+    A4 = np.array([[4.0, 0.0, 1.0], [1.0, 5.0, 2.0], [0.0, 2.0, 6.0]])
+    return dict(A0=A0, A1=A1, A2=A2, A3=A3, S=S, A4=A4)
 
 
-OPS = ['solve:A0', 'solve:A1', 'solve:A2', 'solve:A3', 'solve:S',
-       'lin:A0', 'lin:A1', 'lin:A2', 'lin:A3', 'lin:S', 'linM:A0',
+OPS = ['solve:A0', 'solve:A1', 'solve:A2', 'solve:A3', 'solve:S', 'solve:A4',
+       'lin:A0', 'lin:A1', 'lin:A2', 'lin:A3', 'lin:S', 'lin:A4', 'linM:A0',
        'flagF', 'flagN', 'clear']
 
 
-PATTERN = dict(A0='P0', A1='P0', A2='P2', A3='P3', S='PS')
+PATTERN = dict(A0='P0', A1='P0', A2='P2', A3='P3', S='PS', A4='P4')
 
 
 def stale_symbolic(seq, upto):
